@@ -86,8 +86,11 @@ def generate(rng, idx, tier, variant):
                 else:
                     lplan[hk].append({'a': 'noop'})
         op = {'op': 'solve_t', 't': tn - n if rng.random() < 0.3 else tn, 'select': select, 'opts': opts, 'plans': plans, 'lplan': lplan}
-        if rng.random() < 0.25:
+        r_ = rng.random()
+        if r_ < 0.25:
             op['op'] = 'solve'
+        elif r_ < 0.4:
+            op['op'] = 'solve_period'
         ops.append(op)
         r = rng.random()
         if r < 0.15:
@@ -329,7 +332,7 @@ def execute(schedule, ctx):
         select = op['select']
         t = op['t']
         tn = t + n if t < 0 else t
-        if kind == 'solve':
+        if kind in ('solve', 'solve_period'):
             t = tn
         bus = []
         probes.get_ctl(L).arm({'eb': op['lplan']['eb'], 'ea': op['lplan']['ea']}, bus, '_')
@@ -340,10 +343,14 @@ def execute(schedule, ctx):
         if select is not None:
             kw['submodels'] = list(select)
         try:
+            triple = None
             if kind == 'solve':
                 lab = d['span'][tn]
                 v = L.solve(start=lab, end=lab, **kw)
+                triple = v
                 v = v[2][0] if isinstance(v, tuple) and len(v) == 3 and len(v[2]) == 1 else v
+            elif kind == 'solve_period':
+                v = L.solve_period(d['span'][tn], **kw)
             else:
                 v = L.solve_t(t, **kw)
             out = {'kind': 'return', 'value': v}
@@ -351,6 +358,11 @@ def execute(schedule, ctx):
             out = {'kind': 'raise', 'exc': ex}
         post = snapshot_all(L)
         cls_out = 'return' if out['kind'] == 'return' else type(out['exc']).__name__
+        if kind == 'solve' and out['kind'] == 'return':
+            # C05 (the multi-period entry point of a linker): (labels, positions, flags), one entry per period visited
+            ok_ = isinstance(triple, tuple) and len(triple) == 3 and [str(x) for x in triple[0]] == [str(d['span'][tn])] and [int(x) for x in triple[1]] == [tn] and len(triple[2]) == 1
+            ctx.check('C05', 'linker/solve-returns-labels-positions-flags', ok_, {'got': canon(triple), 'want': [[str(d['span'][tn])], [tn], ['<flag>']]})
+            ctx.probe('linker-solve-triple')
         ctx.count('passes', sum(1 for b in bus if b[1] == 'eval'))
         ctx.count('steps', len(bus))
         if any(not np.isfinite(x) for sm in subs.values() for r in probes.get_ctl(sm).log for x in r.get('post_endo', [])):
@@ -497,6 +509,9 @@ def execute(schedule, ctx):
         # (the linker's own solve_t_before / solve_t_after hooks are not mentioned by the property: recorded, not asserted)
         ctx.probe('linker-solution-hooks:' + str(len([r for r in lrecs if r['hook'] in ('before', 'after')])))
         for sid in selected:
+            if out['kind'] == 'raise':
+                # C05: "the failing period carries the status its policy prescribes" - on the linker's parts too
+                ctx.check('C05', 'linker/failing-period-status-on-submodels', str(post[sid]['status'][tn]) == st, {'submodel': sid, 'got': str(post[sid]['status'][tn]), 'linker': st})
             chk('stamp/same-status-on-selected', str(post[sid]['status'][tn]) == st, {'submodel': sid, 'got': str(post[sid]['status'][tn]), 'linker': st})
             chk('stamp/selected-iterations-equal-linker', int(post[sid]['iterations'][tn]) == it_rec, {'submodel': sid, 'got': int(post[sid]['iterations'][tn]), 'linker': it_rec})
         # frame: nothing outside period t changes anywhere
